@@ -120,7 +120,10 @@ pub fn execute_fsm_pipe(fsm_pipe: &FsmPipe, env: Option<&Environment>, p: &Inter
     call_env.insert(arg_decl.name.hash(), detached_arg);
   }
   let mut state = pattern_to_value(&fsm.start, &call_env, p)?;
-  validate_fsm_state_coverage(&fsm, fsm_pipe)?;
+  // A transition may only go to a state the specification declares.
+  let declared_states: Option<HashSet<String>> = p.user_state_machine_specs.borrow().get(&fsm_id)
+    .map(|spec| spec.states.iter().map(|state| state.name.to_string()).collect());
+  validate_fsm_state_coverage(&fsm, fsm_pipe, declared_states.as_ref())?;
   // The value of an output arm has to be of the kind the specification declares.
   let mut output_kind: Option<ValueKind> = None;
   #[cfg(feature = "kind_annotation")]
@@ -332,7 +335,7 @@ fn execute_fsm_pipe_impl(fsm: &FsmImplementation, state: &mut Value, call_env: &
   .with_compiler_loc())
 }
 
-fn validate_fsm_state_coverage(fsm: &FsmImplementation, fsm_pipe: &FsmPipe) -> MResult<()> {
+fn validate_fsm_state_coverage(fsm: &FsmImplementation, fsm_pipe: &FsmPipe, declared_states: Option<&HashSet<String>>) -> MResult<()> {
   let state_names: HashSet<String> = fsm
     .arms
     .iter()
@@ -378,26 +381,27 @@ fn validate_fsm_state_coverage(fsm: &FsmImplementation, fsm_pipe: &FsmPipe) -> M
       FsmArm::Guard(_, guards) => {
         for guard in guards {
           for transition in &guard.transitions {
-              validate_transition_target_state(transition, fsm, &state_names, fsm_pipe)?;
+              validate_transition_target_state(transition, fsm, &state_names, declared_states, fsm_pipe)?;
           }
         }
         &[]
       }
     };
     for transition in transitions {
-      validate_transition_target_state(transition, fsm, &state_names, fsm_pipe)?;
+      validate_transition_target_state(transition, fsm, &state_names, declared_states, fsm_pipe)?;
     }
   }
   Ok(())
 }
 
-fn validate_transition_target_state(transition: &Transition, fsm: &FsmImplementation, state_names: &HashSet<String>, fsm_pipe: &FsmPipe) -> MResult<()> {
+fn validate_transition_target_state(transition: &Transition, fsm: &FsmImplementation, state_names: &HashSet<String>, declared_states: Option<&HashSet<String>>, fsm_pipe: &FsmPipe) -> MResult<()> {
   let target = match transition {
     Transition::Next(pattern) | Transition::Async(pattern) => state_name_from_pattern(pattern),
     _ => None,
   };
   if let Some(state_name) = target {
-    if !state_names.contains(&state_name) {
+    let undeclared = declared_states.map_or(false, |declared| !declared.is_empty() && !declared.contains(&state_name));
+    if !state_names.contains(&state_name) || undeclared {
       return Err(MechError::new(
         FsmUndefinedStateError {
           fsm_name: fsm.name.to_string(),
